@@ -652,8 +652,9 @@ class Parser:
                 flags |= self.RE_FLAG_MAP[flag]
         try:
             return RegexLiteral(value=re.compile(pattern, flags))
-        except (re.error, OverflowError) as err:
+        except (re.error, OverflowError, ValueError) as err:
             # OverflowError: "the repetition number is too large"
+            # ValueError: incompatible inline flags, like "(?a)(?u)"
             raise JSONPathSyntaxError(
                 f"invalid regular expression: {err}", token=stream.current
             ) from err
